@@ -74,6 +74,14 @@ def gen_case(r, index, tier):
                     x, y = r.randint(0, W - side), r.randint(0, H - side)
                     m["boxes"] = [(x, y, x + side, y + side)]
                     m.pop("center", None)
+    # now and then a pure star: every movable module hangs on one fixed module only, and one of them is large
+    fixeds = [m["name"] for m in nl["modules"] if m["kind"] == "fixed"]
+    if fixeds and r.chance(0.03):
+        hub = r.choice(fixeds)
+        nl["nets"] = [{"mods": [hub, m["name"]], "w": r.choice([1, 1, 2, 10])} for m in nl["modules"] if m["name"] != hub]
+        softs_ = [m for m in nl["modules"] if m["kind"] == "soft"]
+        if softs_:
+            r.choice(softs_)["area"] = max(1, int(r.choice([0.2, 0.3]) * W * H))
     ntr = r.weighted([(0, 1), (1, 4), (2, 2), (3, 1), (4, 1)])
     trials = []
     # the same netlist is also placed on a second, larger die in the same process (a flow that tries several die shapes):
@@ -187,13 +195,30 @@ def run_case(case):
     if len(movable) < 4 or any(math.sqrt(m.area() / math.pi) >= 0.45 * min(W, H) for m in probe_net.modules if not m.is_fixed):
         hist.append({"out": "skipped(not admissible)"})
         return result(False)
-    nfp = case["nfloorplans"]
-    if nfp == 0 and any(m.center is None for m in probe_net.modules):
-        nfp = 1
+    nfp0 = case["nfloorplans"]
+    if nfp0 == 0 and any(m.center is None for m in probe_net.modules):
+        nfp0 = 1
+    nfp = nfp0
     ws = [float(e[-1]) if not isinstance(e[-1], str) else 1.0 for e in tree["Nets"]]
     spread = ">=500" if ws and max(ws) / min(ws) >= 500 else "<500"
     if spread == ">=500":
         probe("netlist_with_one_net_500_times_weaker_than_another")
+    # are the movable modules linked to one another only through fixed modules? (nets restricted to their movable pins)
+    mov_names = [m.name for m in movable]
+    parent = {n: n for n in mov_names}
+
+    def find(x):
+        while parent[x] != x:
+            parent[x] = parent[parent[x]]
+            x = parent[x]
+        return x
+    for e in tree["Nets"]:
+        pins = [x for x in e if isinstance(x, str) and x in parent]
+        for a_, b_ in zip(pins, pins[1:]):
+            parent[find(a_)] = find(b_)
+    only_through_fixed = len({find(n) for n in mov_names}) > 1
+    if only_through_fixed:
+        probe("movable_modules_linked_only_through_fixed_modules")
     good = 0
     tol = 1e-9 * max(W, H)
     sig.append(digest(tree))
@@ -223,6 +248,9 @@ def run_case(case):
         else:
             net = SP.Spectral(tree_t)
         prev = (net, t.get("areas"), (W, H))
+        # "zero trials" means "start from the centres the modules have": only defined when every module has one (a layout
+        # drops the centres of the hard modules it has moved, so an object laid out before may no longer qualify)
+        nfp = 1 if (nfp0 == 0 and any(m.center is None for m in net.modules)) else nfp0
         before, nets_before = _snapshot(net)
         # the nets of the *input document* are the reference (constructing the Spectral object must not change them either)
         nets_before = [[[x for x in e if isinstance(x, str)], float(e[-1]) if not isinstance(e[-1], str) else 1.0]
@@ -238,7 +266,7 @@ def run_case(case):
             sig.append((t["seed"], mode, "raised"))
             if mode == "mt":
                 viol.append({"property": "C14", "clause": "spectral placement does not position the modules (raised)",
-                             "key": dict(key, exc=excname(e), net_weight_spread=spread,
+                             "key": dict(key, exc=excname(e), net_weight_spread=spread, movable_linked_only_through_fixed=only_through_fixed,
                                          die_size="<0.05" if max(W, H) < 0.05 else ">=0.05"),
                              "detail": {"seed": t["seed"], "exc": repr(e)[:200],
                                                                                "nfloorplans": nfp}})
